@@ -4,6 +4,7 @@ import Driver.Layout.Desc
 import Driver.Layout.CSM
 import Driver.Layout.Resolve
 import Driver.Layout.Map32
+import Driver.Layout.Dpr
 /-! package `Layout` (see CONVENTIONS.md): register components in `step`.
 `cfg` lines this package cares about may be matched here too (they must answer "ok");
 every package sees every `cfg` line. -/
@@ -17,6 +18,7 @@ structure St where
   csm : CSM.St := {}
   resolve : Resolve.St := {}
   map32 : Map32.DSt := {}
+  dpr : Dpr.DSt := {}
 
 /-- `none` = not a component of this package. -/
 def step (st : St) (toks : List String) : Option (St × String) :=
@@ -24,6 +26,8 @@ def step (st : St) (toks : List String) : Option (St × String) :=
   | "desc" :: args => some (st, Desc.run st.layout st.debug args)
   | "map32" :: args =>
     let (c, o) := Map32.step st.debug st.map32 args; some ({ st with map32 := c }, o)
+  | "dpr" :: args =>
+    let (c, o) := Dpr.step (!st.layout.forceContiguous) st.debug st.dpr args; some ({ st with dpr := c }, o)
   | "resolve" :: args =>
     let (c, o) := Resolve.step st.layout st.debug st.resolve args; some ({ st with resolve := c }, o)
   | "csm" :: args => let (c, o) := CSM.step st.csm args; some ({ st with csm := c }, o)
